@@ -364,6 +364,85 @@ func runBrokerPairs(r *h.Run, c h.Conf, kind string) {
 			r.Violate("truncated-or-failed-late-call", "broker="+kind+" short", fmt.Sprintf("echo of %d bytes returned %d", n, len(lo.Val.(string))))
 		}
 	}
+	// an ID used a second time after its listener was closed, the second
+	// accept/dial pair issued a few seconds after the first (around the
+	// broker's own 5 s timers), in either order
+	if kind == "grpc" && c.TLS != "auto" && (r.Spec.P("reuse", "") != "" || (r.Spec.P("fixed", "") != "1" && w.Range("reuse/on", 3) == 0)) {
+		inj0 := w.InjectedTotal()
+		hostAccepts := w.Range("reuse/dir", 2) == 0
+		acceptFirst := w.Range("reuse/ord", 2) == 0
+		wait := []time.Duration{3200, 3900, 4400, 4800}[w.Range("reuse/wait", 4)] * time.Millisecond
+		gap := []time.Duration{400, 1000, 1600}[w.Range("reuse/gap", 3)] * time.Millisecond
+		if v := r.Spec.P("reuse", ""); v != "" {
+			// fixed cell: "<h|p><a|d>"
+			hostAccepts, acceptFirst, wait, gap = v[0] == 'h', v[1] == 'a', 4400*time.Millisecond, time.Second
+		}
+		rid := uint32(1700)
+		rctx := fmt.Sprintf("broker=grpc id-reuse accept-side=%s order=%s", map[bool]string{true: "host", false: "plugin"}[hostAccepts], map[bool]string{true: "accept-first", false: "dial-first"}[acceptFirst])
+		var stop func()
+		accept := func(round string) bool {
+			if hostAccepts {
+				st, err := h.HostAcceptOwn(s.cmd, rid)
+				if err != nil {
+					r.Violate("lost-pair", rctx+" step="+round, fmt.Sprintf("Accept(%d) failed: %v", rid, err))
+					return false
+				}
+				stop = st
+				return true
+			}
+			if _, err := s.cmd.Do("acceptown", fmt.Sprint(rid)); err != nil {
+				r.Violate("lost-pair", rctx+" step="+round, fmt.Sprintf("plugin Accept(%d) failed: %v", rid, err))
+				return false
+			}
+			stop = func() { s.cmd.Do("stopown", fmt.Sprint(rid)) }
+			return true
+		}
+		dial := func(round string) {
+			o := r.Do(fmt.Sprintf("ReuseDial(%d)[%s]", rid, round), 60*time.Second, func() (any, error) {
+				if hostAccepts {
+					return s.cmd.Do("dial", fmt.Sprint(rid))
+				}
+				return h.HostDialPing(s.cmd, rid)
+			})
+			quiet := w.InjectedTotal()-inj0 < 300*time.Millisecond && w.FaultCount("conn.rst") == 0
+			switch {
+			case o.Hung:
+				r.Violate("hang", "op=Dial "+rctx+" step="+round, "dial never returned")
+			case o.Err != nil:
+				if quiet {
+					r.Violate("lost-pair", rctx+" step="+round, fmt.Sprintf("dial of id %d failed: %v", rid, o.Err))
+				}
+			case o.Val.(string) != fmt.Sprintf("id=%d", rid):
+				r.Violate("misroute", rctx+" step="+round, fmt.Sprintf("id %d answered by %q", rid, o.Val))
+			}
+		}
+		t0 := w.Now()
+		if accept("first") {
+			dial("first")
+			stop()
+			w.Probe("grpc.id-reuse")
+			if d := wait - (w.Now() - t0); d > 0 {
+				time.Sleep(d)
+			}
+			if acceptFirst {
+				if accept("reuse") {
+					time.Sleep(gap)
+					dial("reuse")
+					stop()
+				}
+			} else {
+				var dwg sync.WaitGroup
+				dwg.Add(1)
+				go k.Trap(func() { defer dwg.Done(); dial("reuse") })
+				time.Sleep(gap)
+				ok := accept("reuse")
+				dwg.Wait()
+				if ok {
+					stop()
+				}
+			}
+		}
+	}
 	// the control connection still works
 	o := r.DoNoHang("Ping", 60*time.Second, kind, func() (any, error) { return nil, s.cp.Ping() })
 	if o.Err != nil && w.InjectedTotal() < 10*time.Second && w.FaultCount("conn.rst") == 0 {
@@ -408,6 +487,9 @@ func init() {
 						}
 					}
 				}
+			}
+			for _, ru := range []string{"ha", "hd", "pa", "pd"} {
+				out = append(out, sp("C07", "fixed-reuse/"+ru, seed, P("tls", "none", "launch", "cmd", "fixed", "1", "dir", "h", "ord", "a", "gap", "0", "reuse", ru)))
 			}
 			cases := confCases()
 			out = append(out, seeded("C07", seed, n, func(i int, sd uint64) *k.Spec {
